@@ -153,8 +153,33 @@ def run(args):
     print("summary:", ", ".join(f"{a}={b}" for a, b in summary))
 
 
+def table():
+    rows = ["| seed | files touched | what it needs to manifest (agent's note, abridged) | first | now (quick) | signature reported |", "|---|---|---|---|---|---|"]
+    for sd in sorted(p for p in SEEDED.iterdir() if p.is_dir()):
+        m = json.loads((sd / "meta.json").read_text())
+        own = m.get("checks", {}).get(f"{m['property']}:quick", {})
+        need = " ".join(l.strip("-* ") for l in m.get("needs_to_manifest", "").splitlines() if l.strip() and not l.startswith("#"))
+        need = need.replace("|", "/")[:230]
+        sig = (own.get("signatures") or [""])[0].replace("signature=", "").split(" count=")[0][:80]
+        files = ", ".join(f.replace("src/tola/", "") for f in m["files_touched"])
+        rows.append(f"| {m['id']} | {files} | {need} | {m.get('first_quick_result', own.get('result', '?'))} | {own.get('result', '?')} | `{sig}` |")
+    txt = "\n".join(rows)
+    d = V / "DESIGN.md"
+    s = d.read_text()
+    a, b = "<!-- seeded-table-begin -->", "<!-- seeded-table-end -->"
+    if "SEEDED_TABLE_PLACEHOLDER" in s:
+        s = s.replace("SEEDED_TABLE_PLACEHOLDER", f"{a}\n{txt}\n{b}")
+    else:
+        s = s[: s.index(a)] + f"{a}\n{txt}\n" + s[s.index(b):]
+    d.write_text(s)
+    print(f"{len(rows) - 2} seeds in table")
+
+
 if __name__ == "__main__":
     BASE.mkdir(parents=True, exist_ok=True)
+    if sys.argv[1] == "table":
+        table()
+        sys.exit(0)
     if sys.argv[1] == "ingest":
         sys.exit(0 if ingest(sys.argv[2], sys.argv[3], sys.argv[4]) else 1)
     run(sys.argv[2:])
